@@ -36,6 +36,9 @@ checks = {
    text="TLC evaluates Selector.tla (keys mapping over arrays, index lists consuming successive dimensions with each / ranges, flattening by dims-1 unless keep=>, pipes with conversions, quoted keys, :: continuation, top level functions, NULL propagation, errors for wrong shapes and out-of-range indices or bounds) on every (document, selector) of the bounded domain and checks its laws (a::b = b after a, [each] identity, keep=> vs flattened, NULL stays NULL, out of range is an error); every case is replayed through ExecReader on a fresh copy (value / error equality, no panic, document deep-equal afterwards, object arrays also as a FROM path) together with byte-level mutations of the selector text (no panic, document untouched).",
    tech="TLA+ specification (Selector.tla) model-checked with TLC; every exported (document, selector) replayed through genql.ExecReader; byte-level mutations for totality",
    note="Exhaustive over the stated document x selector domain; 'arbitrary byte strings' are sampled as mutations of the enumerated selectors (only no-panic / no-mutation is demanded there). Results the documented grammar leaves open (%v text of containers under |string, mix=> of objects) are marked unspecified in the specification and only checked for totality."),
+ "C07": dict(cat="model_checking", ref="DESIGN.md 4 C07",
+   text="RunQ defines CTE references, derived tables and row-scoped subqueries by substitution; TLC checks on every document x query of the bounded families that the composed meaning equals explicit staged evaluation (materialise every CTE / derived table into the document, then run the outer query), that a select-list subquery contributes its standalone value on the row, and that EXISTS is true iff some nested element satisfies the predicate with the outer row's columns in scope; every case is replayed against the real library three ways - composed, staged (inner queries executed alone, results deep-copied into a plain document) and standalone subqueries - all compared with the exported result.",
+   tech="TLA+ specification (Genql RunQ/BindCtes/Source/Ev sub, exists; Engine) model-checked with TLC; exported behaviours replayed composed, staged and standalone against the Go library"),
 }
 not_applicable = []
 m = {
